@@ -361,52 +361,13 @@ def rule_top(chk, tpl):
             chk.holds('top-level-structure', rule, file=TPL, func='AccelerationEval.compute', detail='all %d configurations' % nconf)
 
 
-def rule_helpers(chk):
+def rule_iteration(chk):
+    """iterated groups: limits, exit test, non short-circuit convergence over every equation (shared with C02: the compiled loop must call
+    converged() of every equation in every pass, like the Python semantics the equations were written against)"""
     ah = M.py(AH)
     cls = M.find_class(ah, 'AccelerationEvalCythonHelper')
-    ds = M.find_func(cls, 'get_dest_array_setup')
-    ss = M.find_func(cls, 'get_src_array_setup')
-    # what the generators emit for generic groups: every combination of a missing / named / numeric start and stop index, real or all particles
     it = EM.interpreter()
     helper = EM.instance(it, AH, 'AccelerationEvalCythonHelper')
-
-    def names(src_names, dst_names):
-        return lambda interp, args, kwargs, node, env: (set(src_names), set(dst_names))
-    cases = []
-    for start, wstart in ((0, 'D_START_IDX = 0'), (5, 'D_START_IDX = 5'), ('n0', 'D_START_IDX = self.fluid.n0[0]')):
-        for stop, real, wstop in ((None, True, 'NP_DEST = self.fluid.size(real=True)'), (None, False, 'NP_DEST = self.fluid.size(real=False)'),
-                                  (7, True, 'NP_DEST = 7'), (0, True, 'NP_DEST = 0'), ('n1', False, 'NP_DEST = self.fluid.n1[0]')):
-            cases.append((start, stop, real, wstart, wstop))
-    bad = []
-    try:
-        for start, stop, real, wstart, wstop in cases:
-            grp = EM.mock(start_idx=start, stop_idx=stop, real=real)
-            nos = EM.mock(get_array_names=names(['s_q'], ['d_x', 'd_au']))
-            srcs = {'solid': EM.mock(get_array_names=names(['s_x', 's_m'], ['d_rho', 'd_x']))}
-            text = EM.call(it, helper, 'get_dest_array_setup', 'fluid', nos, srcs, grp)
-            ls = [l.strip() for l in text.splitlines() if l.strip()]
-            want = [wstart, wstop] + ['%s = dst.%s.data' % (n, n[2:]) for n in sorted(['d_x', 'd_au', 'd_rho'])]
-            if ls != want:
-                bad.append(((start, stop, real), ls))
-        chk.decide(not bad, 'destination-range', 'emitted-bounds-and-pointers', node=ds, file=AH, func='get_dest_array_setup',
-                   detail_bad='for (start_idx, stop_idx, real) = %s the generator emits %s; expected D_START_IDX = <start | self.<dest>.<name>[0]>, NP_DEST = <self.<dest>.size(real=<real>) | '
-                              'stop | self.<dest>.<name>[0]>, then one `d_x = dst.x.data` line per destination array of the equations with and without sources'
-                              % (bad[0][0] if bad else None, bad[0][1] if bad else None),
-                   detail_ok='%d combinations of start / stop / real: bounds and destination pointers as documented' % len(cases))
-        text = EM.call(it, helper, 'get_src_array_setup', 'solid', EM.mock(get_array_names=names(['s_x', 's_m'], ['d_rho'])))
-        ls = [l.strip() for l in text.splitlines() if l.strip()]
-        ok = ls == ['NP_SRC = self.solid.size()', 's_m = src.m.data', 's_x = src.x.data']
-        chk.decide(ok, 'all-neighbours-contribute', 'NP_SRC-all-particles', node=ss, file=AH, func='get_src_array_setup',
-                   detail_bad='for a source `solid` with arrays s_x, s_m the generator emits %s: the source range must be all particles (real and ghost) and every source array bound to src.<name>' % ls,
-                   detail_ok='NP_SRC = self.<src>.size(); s_x = src.x.data ...')
-    except (AI.Unsupported, AI.Raised) as e:
-        chk.undecided('destination-range', 'emitted-bounds-and-pointers', node=ds, file=AH, func='get_dest_array_setup', detail='generator not interpretable: %s' % e)
-    pr = M.find_func(cls, 'get_parallel_range')
-    rets = [r for r in ast.walk(pr) if isinstance(r, ast.Return)]
-    ok = len(rets) == 1 and isinstance(rets[0].value, ast.Call) and M.call_name(rets[0].value) == 'get_parallel_range' and \
-        [U(a) for a in rets[0].value.args] == ["'D_START_IDX'", "'NP_DEST'"]
-    chk.decide(ok, 'destination-range', 'range-uses-bounds', node=pr, file=AH, func='get_parallel_range',
-               detail_bad='range is not built from D_START_IDX..NP_DEST', detail_ok='get_parallel_range("D_START_IDX", "NP_DEST")')
     # iteration: what the generators emit for a model group (max 7, min 2, two equations / a group of two sub-groups), parsed as code
     ii = M.find_func(cls, 'get_iteration_init')
     ic = M.find_func(cls, 'get_iteration_check')
@@ -480,6 +441,55 @@ def rule_helpers(chk):
                            detail_bad='count is not incremented exactly once per pass after the exit test', detail_ok='break or count += 1')
     except (AI.Unsupported, AI.Raised) as e:
         chk.undecided('iteration', 'emitted', node=ic, file=AH, func='get_iteration_check', detail='generator not interpretable: %s' % e)
+
+
+def rule_helpers(chk):
+    ah = M.py(AH)
+    cls = M.find_class(ah, 'AccelerationEvalCythonHelper')
+    ds = M.find_func(cls, 'get_dest_array_setup')
+    ss = M.find_func(cls, 'get_src_array_setup')
+    # what the generators emit for generic groups: every combination of a missing / named / numeric start and stop index, real or all particles
+    it = EM.interpreter()
+    helper = EM.instance(it, AH, 'AccelerationEvalCythonHelper')
+
+    def names(src_names, dst_names):
+        return lambda interp, args, kwargs, node, env: (set(src_names), set(dst_names))
+    cases = []
+    for start, wstart in ((0, 'D_START_IDX = 0'), (5, 'D_START_IDX = 5'), ('n0', 'D_START_IDX = self.fluid.n0[0]')):
+        for stop, real, wstop in ((None, True, 'NP_DEST = self.fluid.size(real=True)'), (None, False, 'NP_DEST = self.fluid.size(real=False)'),
+                                  (7, True, 'NP_DEST = 7'), (0, True, 'NP_DEST = 0'), ('n1', False, 'NP_DEST = self.fluid.n1[0]')):
+            cases.append((start, stop, real, wstart, wstop))
+    bad = []
+    try:
+        for start, stop, real, wstart, wstop in cases:
+            grp = EM.mock(start_idx=start, stop_idx=stop, real=real)
+            nos = EM.mock(get_array_names=names(['s_q'], ['d_x', 'd_au']))
+            srcs = {'solid': EM.mock(get_array_names=names(['s_x', 's_m'], ['d_rho', 'd_x']))}
+            text = EM.call(it, helper, 'get_dest_array_setup', 'fluid', nos, srcs, grp)
+            ls = [l.strip() for l in text.splitlines() if l.strip()]
+            want = [wstart, wstop] + ['%s = dst.%s.data' % (n, n[2:]) for n in sorted(['d_x', 'd_au', 'd_rho'])]
+            if ls != want:
+                bad.append(((start, stop, real), ls))
+        chk.decide(not bad, 'destination-range', 'emitted-bounds-and-pointers', node=ds, file=AH, func='get_dest_array_setup',
+                   detail_bad='for (start_idx, stop_idx, real) = %s the generator emits %s; expected D_START_IDX = <start | self.<dest>.<name>[0]>, NP_DEST = <self.<dest>.size(real=<real>) | '
+                              'stop | self.<dest>.<name>[0]>, then one `d_x = dst.x.data` line per destination array of the equations with and without sources'
+                              % (bad[0][0] if bad else None, bad[0][1] if bad else None),
+                   detail_ok='%d combinations of start / stop / real: bounds and destination pointers as documented' % len(cases))
+        text = EM.call(it, helper, 'get_src_array_setup', 'solid', EM.mock(get_array_names=names(['s_x', 's_m'], ['d_rho'])))
+        ls = [l.strip() for l in text.splitlines() if l.strip()]
+        ok = ls == ['NP_SRC = self.solid.size()', 's_m = src.m.data', 's_x = src.x.data']
+        chk.decide(ok, 'all-neighbours-contribute', 'NP_SRC-all-particles', node=ss, file=AH, func='get_src_array_setup',
+                   detail_bad='for a source `solid` with arrays s_x, s_m the generator emits %s: the source range must be all particles (real and ghost) and every source array bound to src.<name>' % ls,
+                   detail_ok='NP_SRC = self.<src>.size(); s_x = src.x.data ...')
+    except (AI.Unsupported, AI.Raised) as e:
+        chk.undecided('destination-range', 'emitted-bounds-and-pointers', node=ds, file=AH, func='get_dest_array_setup', detail='generator not interpretable: %s' % e)
+    pr = M.find_func(cls, 'get_parallel_range')
+    rets = [r for r in ast.walk(pr) if isinstance(r, ast.Return)]
+    ok = len(rets) == 1 and isinstance(rets[0].value, ast.Call) and M.call_name(rets[0].value) == 'get_parallel_range' and \
+        [U(a) for a in rets[0].value.args] == ["'D_START_IDX'", "'NP_DEST'"]
+    chk.decide(ok, 'destination-range', 'range-uses-bounds', node=pr, file=AH, func='get_parallel_range',
+               detail_bad='range is not built from D_START_IDX..NP_DEST', detail_ok='get_parallel_range("D_START_IDX", "NP_DEST")')
+    rule_iteration(chk)
     # dispatch map
     gm = M.find_func(cls, '_compute_group_map')
     try:
@@ -580,7 +590,7 @@ def rule_helpers(chk):
             okn, whyn = False, 'a sourced equation is not filed under every one of equation.sources'
     chk.decide(okn, 'regrouping-preserves-order', 'sourced-equations-reach-their-sources', node=ns[0] if ns else md, file=AE, func='MegaGroup._make_data',
                detail_bad=whyn, detail_ok='no_source -> source-less bucket; otherwise one entry per source')
-    gcode = M.find_method(eq, 'CythonGroup', '_get_code')
+    gcode = M.find_method(M.py(EQ), 'CythonGroup', '_get_code')
     l2 = [l for l in ast.walk(gcode) if isinstance(l, ast.For) and compact(l.iter) == 'self.equations']
     chk.decide(bool(l2), 'regrouping-preserves-order', 'calls-in-equation-order', node=gcode, file=EQ, func='CythonGroup._get_code',
                detail_bad='calls are not generated by iterating self.equations in order', detail_ok='for eq in self.equations')
